@@ -417,7 +417,7 @@ def cases(ctx):
                     i += 1
                     if ctx.mine(i):
                         yield (t, op, a, b, True)
-    n = ctx.scale(40000, 2400000)
+    n = ctx.scale(240000, 4800000)
     for _ in range(n):
         t = rnd.choice(["int", "int", "uint", "double"])
         if t == "int":
